@@ -125,9 +125,12 @@ CLAIMED = {
              "decreasing alignment, .ctors/.dtors contents reversed) and of GNU ld's default script (SORT_BY_INIT_PRIORITY over .init_array.* and .ctors.* with ld's section-name tie-break, then "
              "the plain sections in input order). Theorem: for every list of sections whose suffixes are priorities below 65535 after the .ctors inversion, with one alignment and equal "
              "priorities spelled alike, wild's order = ld's order (via: a stable sort is the concatenation of its key buckets). Three refutation theorems mark the rest of the input space; "
-             "each is reproduced against wild and GNU ld and recorded as a known finding.",
+             "each is reproduced against wild and GNU ld and recorded as a known finding. Extent of the section (C30/Extent.v): OutputRecordLayout::merge and the placement of the per-priority "
+             "parts; theorem: for every start position, every list of parts (power-of-two alignments, positive sizes) and every merge order the section starts at its first part, contains every "
+             "part and ends with the last one; the pinned tree's sum-of-sizes merge is refuted (repaired in /repo).",
         note="Trusted: the GNU ld side is a specification; it is validated on every run against ld 2.40 itself on the generated links (0 disagreements), as is wild against wild_order. crtbegin/"
-             "crtend EXCLUDE_FILE clauses are outside the model. Entries are read back between __X_array_start/__X_array_end and, separately, inside sh_size (what DT_X_ARRAYSZ covers).",
+             "crtend EXCLUDE_FILE clauses are outside the model. Entries are read back between __X_array_start/__X_array_end and, separately, inside sh_size (what DT_X_ARRAYSZ covers). "
+             "The extent model is run on the parts recorded by the layout trace hook and compared with the section header wild wrote.",
         technique="Coq proof (stable insertion sort = bucket concatenation, induction over lists and ranges) + model/implementation and spec/GNU-ld correspondence on generated links",
         design_ref="DESIGN.md §3 C30"),
     "C33": dict(
@@ -170,7 +173,8 @@ CLAIMED = {
     "C36": dict(
         text="S1: Gallina model of merge_gnu_property_notes (one pass over all properties of all inputs with a map keyed by type, class from get_property_class, final filter, -z x86-64-vN) and "
              "of the stack rule (validate_stack_section, PF_X iff -z execstack); specification = per property type the AND / OR / OR_AND of the inputs' values with GNU ld's drop rules, in type "
-             "order, and GNU ld's stack rule. Theorems: for every list of inputs wild's note IS the specified merge (or the link is rejected for an unclassified type); on every accepted link "
+             "order (spec_merge), plus GNU ld's unmerged copy of a one-object link (gnu_note), and GNU ld's stack rule. Theorems: for every list of inputs wild's note carries exactly the specified "
+             "bits (or the link is rejected for an unclassified type) and IS GNU ld's note outside the one-object class with generic 0xb000xxxx entries (refuted there, recorded); on every accepted link "
              "PT_GNU_STACK is executable iff GNU ld's is, unless stack notes are partly missing without a -z flag (refuted there, recorded).",
         note="Trusted: the specification is validated on every run against GNU ld 2.40 itself (property note and PT_GNU_STACK of the same links; 0 disagreements); 4-byte properties only; shared "
              "library inputs and -z ibt/shstk are outside the generated inputs; GNU ld 2.40 aborts on -z x86-64-baseline, so that flag is not generated.",
